@@ -516,6 +516,13 @@ Definition alloc_ok (c : codec) (x : robs) : bool :=
   | Varint None => true
   end.
 
+(* how many of the messages lie completely within the first `room` bytes of the concatenated encodings *)
+Fixpoint nfull (c : codec) (msgs : list (list N)) (room : N) : nat :=
+  match msgs with
+  | [] => O
+  | m :: t => let l := lenN (frame c m) in if l <=? room then S (nfull c t (room - l)) else O
+  end.
+
 (* the messages whose encoding is (given acc = their concatenated encodings) handed over *)
 Definition rtrace_ok (t : tcase) (obs : list robs) (msgs : list (list N)) (acc total : list N) (broken : bool) : bool :=
   let c := t_codec t in
@@ -535,7 +542,10 @@ Definition rtrace_ok (t : tcase) (obs : list robs) (msgs : list (list N)) (acc t
      (if nlist_eqb total acc && (final_rem =? 0) &&
          negb (match c with Identity 0 => true | _ => false end)
       then msgs_eqb fr msgs else true)
-   else if negb broken && nlist_eqb total acc then agree fr msgs else true).
+   else if negb broken && nlist_eqb total acc then agree fr msgs
+   (* raw bytes follow a carrier content that ends inside a frame: the messages that are completely on the
+      carrier are still read back byte for byte, whatever comes after them *)
+   else if negb broken then agree (firstn (nfull c msgs (lenN total)) fr) msgs else true).
 
 Definition zero_wobs : wobs := mkWobs 1 0 0 [] 0 0 [] 0 0 1.
 
